@@ -96,6 +96,14 @@ def replay(d):
     with open(os.path.join(d, "finding.json")) as f:
         fj = json.load(f)
     prop, pname, prof = fj["property"], fj["profile"], fj["profile_def"]
+    if fj.get("kind") == "api_form":
+        exe, blog = vlib.build_profile(pname, prof)
+        if exe is not None and not blog.startswith("COMPAT-FALLBACK"):
+            print("not reproduced: every API form builds for profile", pname)
+            return 0
+        print(blog[-1500:])
+        print("VIOLATION property=%s replay=%s" % (prop, d))
+        return 1
     if fj.get("kind") == "component":
         import components
         return components.replay(d, fj)
@@ -193,10 +201,18 @@ def check(prop, tier, seed):
         pres = {"profiles": {}, "cached": False}
     findings, drift, nexec, nevents, accepted_exec = [], [], 0, 0, 0
     sample = None
+    api_findings = []
     for pname, pr in pres["profiles"].items():
         if not pr["built"]:
             infra.append("harness does not build for profile %s: %s" % (pname, pr["build_log"][-600:]))
             continue
+        if pr.get("compat"):
+            # a rarely used API form does not compile / link on this tree (the pool ran on the fallback build with the basic forms)
+            for p_, what in pr.get("api_findings", []):
+                if p_ == prop and not any(a[0] == what for a in api_findings):
+                    api_findings.append((what, pname, pr["build_log"]))
+            vlib.log("API-FORM %s: a rarely used API form does not build (%s); basic forms used instead" % (
+                pname, ("attributed to " + ",".join(sorted({a[0] for a in pr["api_findings"]}))) if pr.get("api_findings") else "reported under C19"))
         if pr["validation"]["error"]:
             infra.append("TLC failed on the traces of %s: %s" % (pname, pr["validation"]["error"][-600:]))
         for sname, run in pr["runs"].items():
@@ -234,6 +250,18 @@ def check(prop, tier, seed):
         vlib.log("VIOLATION property=%s replay=%s" % (prop, d))
         violations += 1
         replays.append(d)
+    for what, pname, blog in api_findings:
+        d = os.path.join(vlib.EVIDENCE, "replays", prop, "api_%s" % pname)
+        shutil.rmtree(d, ignore_errors=True)
+        vlib.ensure(d)
+        with open(os.path.join(d, "build.log"), "w") as f:
+            f.write(blog)
+        with open(os.path.join(d, "finding.json"), "w") as f:
+            json.dump({"property": prop, "profile": pname, "profile_def": pool.PROFILES[pname], "kind": "api_form", "finding": {"why": what},
+                       "how": "bin/check replay " + d}, f, indent=1)
+        vlib.log("FINDING property=%s profile=%s: %s" % (prop, pname, what))
+        vlib.log("VIOLATION property=%s replay=%s" % (prop, d))
+        violations += 1
     for idx, ef in enumerate(extra_findings[:5]):
         if any(k.get("property") == prop and k.get("signature") == ef.get("signature") for k in knownlist):
             vlib.log("KNOWN-FINDING: property=%s %s" % (prop, ef.get("signature")))
